@@ -298,6 +298,40 @@ pub fn check_bundle(name: &str, b: &SpendBundle, interned: bool, strict: bool) -
             if at.as_ref().ok() != Some(&c) || below {
                 fails.push((format!("{name}/{tag}{fl_name}/mempool-exact-limit"), format!("cost {c}: with a budget of exactly {c} run_spendbundle gives {:?}; with {} it accepts = {below}", at.map_err(|e| format!("{e:?}")), c.saturating_sub(1))));
             }
+            // ... and every smaller budget fails with cost-exceeded, not with some other error: just below the total, where the
+            // last charge fails; well inside, where a puzzle runs out while executing; and almost nothing
+            let smaller = |c: u64| -> Vec<u64> { let mut v = vec![c.saturating_sub(1), c - c / 3, c / 2, c.saturating_sub(450_201), c.saturating_sub(1_200_001), 1]; v.retain(|l| *l > 0 && *l < c); v.sort(); v.dedup(); v };
+            let kind = |e: &chia_consensus::validation_error::ValidationErr| e.error_code() == chia_consensus::validation_error::ErrorCode::CostExceeded;
+            n += 1;
+            for l in smaller(c) {
+                let mut a3 = make_allocator(ConsensusFlags::LIMIT_HEAP);
+                match run_spendbundle(&mut a3, b, l, fl, &TEST_CONSTANTS) {
+                    Err(e) if kind(&e) => {}
+                    other => { fails.push((format!("{name}/{tag}{fl_name}/mempool-smaller-limit"), format!("cost {c}: with a budget of {l} run_spendbundle gives {:?}, not cost-exceeded", other.map(|x| x.0.cost).map_err(|e| format!("{e:?}"))))); break; }
+                }
+            }
+            if let Ok(g) = solution_generator(spends_iter()) {
+                if let Ok((_, k)) = run_block_generator2(&g, blocks, max, fl, &Signature::default(), None, &TEST_CONSTANTS) {
+                    n += 1;
+                    for l in smaller(k.cost) {
+                        match run_block_generator2(&g, blocks, l, fl, &Signature::default(), None, &TEST_CONSTANTS) {
+                            Err(e) if kind(&e) => {}
+                            other => { fails.push((format!("{name}/{tag}{fl_name}/block-smaller-limit"), format!("cost {}: with a budget of {l} run_block_generator2 gives {:?}, not cost-exceeded", k.cost, other.map(|x| x.1.cost).map_err(|e| format!("{e:?}"))))); break; }
+                        }
+                    }
+                }
+                if !interned {
+                    if let Ok((_, k)) = run_block_generator(&g, blocks, max, fl, &Signature::default(), None, &TEST_CONSTANTS) {
+                        n += 1;
+                        for l in smaller(k.cost) {
+                            match run_block_generator(&g, blocks, l, fl, &Signature::default(), None, &TEST_CONSTANTS) {
+                                Err(e) if kind(&e) => {}
+                                other => { fails.push((format!("{name}/{tag}{fl_name}/legacy-smaller-limit"), format!("cost {}: with a budget of {l} run_block_generator gives {:?}, not cost-exceeded", k.cost, other.map(|x| x.1.cost).map_err(|e| format!("{e:?}"))))); break; }
+                            }
+                        }
+                    }
+                }
+            }
             if let Ok(g) = solution_generator(spends_iter()) {
                 if let Ok((_, k)) = run_block_generator2(&g, blocks, max, fl, &Signature::default(), None, &TEST_CONSTANTS) {
                     n += 1;
